@@ -18,7 +18,7 @@ func init() {
 		Fn:          c16,
 		Level:       "exploration",
 		Builds:      []string{"default", "purego"},
-		Rule:        "histories over {Append, AppendMany (crossing LowCardinality key widths), Reset, Prepare, Infer, EncodeColumn, WriteColumn+Flush, EncodeRawBlock, Reset+Decode(valid data, incl. reference-encoded LowCardinality with forced key widths), Reset+Decode(truncated)} on one column object, checked after every step against a list-of-values model: Rows(), Row(i) for all i, and the reference decode of every encoding. Random histories of length <= 40 for every catalogue column and boxed random compositions; exhaustive histories of length <= 4 (quick) / 5 (thorough) over a reduced alphabet for LowCardinality, Enum, String, Array, Map, Nullable, DateTime64. Non-trivial = >=2 encodes or a decode after use; distinct = (type, kind, history)",
+		Rule:        "histories over {Append, AppendMany (crossing LowCardinality key widths), Reset, Prepare, Infer, EncodeColumn, WriteColumn+Flush, EncodeRawBlock, Reset+Decode(valid data, incl. reference-encoded LowCardinality with forced key widths), Reset+Decode(truncated), DecodeBlock through bound Results (0 rows with columns, 1, 2, 5 rows; no explicit Reset)} on one column object, checked after every step against a list-of-values model: Rows(), Row(i) for all i, and the reference decode of every encoding. Random histories of length <= 40 for every catalogue column and boxed random compositions; exhaustive histories of length <= 4 (quick) / 5 (thorough) over a reduced alphabet for LowCardinality, Enum, String, Array, Map, Nullable, DateTime64. Non-trivial = >=2 encodes or a decode after use; distinct = (type, kind, history)",
 		Assumptions: []string{"contract: no decode into a non-empty column (Reset precedes every decode); after a failed decode the next operation is Reset; Preparable columns are prepared before encoding"},
 		MinDistinct: 500,
 	}
@@ -36,10 +36,11 @@ const (
 	opDecode
 	opDecodeTrunc
 	opAppendSeen
+	opDecodeBlock
 	nOps16 = opDecodeTrunc + 1
 )
 
-var opNames = []string{"Append", "AppendMany", "Reset", "Prepare", "Infer", "EncodeColumn", "WriteColumn", "EncodeRawBlock", "Reset+Decode", "Reset+DecodeTruncated", "AppendSeen"}
+var opNames = []string{"Append", "AppendMany", "Reset", "Prepare", "Infer", "EncodeColumn", "WriteColumn", "EncodeRawBlock", "Reset+Decode", "Reset+DecodeTruncated", "AppendSeen", "DecodeBlock"}
 
 type c16State struct {
 	r      *core.Run
@@ -254,6 +255,29 @@ func (s *c16State) apply(op int) {
 			if len(s.hist) > 1 {
 				s.decAft = true
 			}
+		case opDecodeBlock:
+			// a whole result block bound to the column through Results: the library resets the
+			// target itself, also for a block that has columns but no rows
+			n := []int{0, 0, 1, 2, 5}[s.rng.Intn(5)]
+			vs := val.GenColumn(s.rng, s.t, n, val.GenOpt{MaxElem: 3})
+			rev := []int{54460, 54453, 51902}[s.rng.Intn(3)]
+			var w ref.W
+			if err := ref.EncodeBlock(&w, rev, &ref.Block{Info: ref.BlockInfo{Bucket: -1}, Rows: n, Cols: []ref.Col{{Name: "c", Type: s.ts, Vals: vs}}}); err != nil {
+				s.hist[len(s.hist)-1] += "(skipped)"
+				return
+			}
+			var blk proto.Block
+			err := blk.DecodeBlock(proto.NewReader(bytes.NewReader(w.B)), rev, proto.Results{{Name: "c", Data: c}})
+			s.model = s.model[:0]
+			if err != nil {
+				s.fail("decode-block-error", fmt.Sprintf("DecodeBlock of a valid %d-row block (rev %d) into the bound column failed: %v", n, rev, err))
+				return
+			}
+			s.model = append(s.model, vs...)
+			s.hist[len(s.hist)-1] += fmt.Sprintf("(%d rows)", n)
+			if len(s.hist) > 1 {
+				s.decAft = true
+			}
 		}
 	}); p != "" {
 		s.fail("panic", p)
@@ -324,7 +348,10 @@ func c16Run(r *core.Run, idx int64, ts string, mk func() (val.LibCol, error), op
 	} else {
 		many := 0
 		for i := 0; i < random && !s.bad; i++ {
-			op := s.rng.Intn(nOps16)
+			op := s.rng.Intn(nOps16 + 1)
+			if op == nOps16 {
+				op = opDecodeBlock
+			}
 			if s.dirty {
 				op = opReset
 			}
@@ -387,7 +414,7 @@ func c16(r *core.Run) {
 		c16EnumReinfer(r, ci)
 	}
 	// exhaustive short histories over a reduced alphabet for the stateful column kinds
-	alpha := []int{opAppend, opAppendSeen, opEncode, opReset, opDecode, opAppendMany}
+	alpha := []int{opAppend, opAppendSeen, opEncode, opReset, opDecode, opDecodeBlock, opAppendMany}
 	L := r.Pick(4, 5)
 	types := []string{"LowCardinality(String)", "Array(LowCardinality(String))", "Enum8('hello' = 1, 'world' = 2, 'x y' = -5)", "String", "Array(String)", "Map(String, String)", "Nullable(String)", "DateTime64(3)", "Map(LowCardinality(String), Array(String))"}
 	for _, ts := range types {
